@@ -139,9 +139,14 @@ def pairCodes : List Nat → List Nat
 def Font.decode (f : Font) (bytes : List Nat) : List Nat :=
   if f.multibyte then pairCodes bytes else bytes
 
+/-- The environment a content stream is interpreted in: its resource dictionary (fonts, XObjects,
+colour spaces: name ↦ (family, number of components)) and the form XObjects that are being painted
+right now (`active`, innermost first; indices into `Env.forms`). -/
 structure Res where
   fonts : List (String × Nat)
   xobjs : List (String × Nat)
+  cspaces : List (String × (String × Nat)) := []
+  active : List Nat := []
   deriving Repr, DecidableEq, Inhabited
 
 structure Form where
@@ -166,6 +171,10 @@ structure Glyph where
   font : String
   col : Option Color
   deriving Repr, DecidableEq, Inhabited
+
+def lookupCS (k : String) : List (String × (String × Nat)) → Option (String × Nat)
+  | [] => none
+  | (k', v) :: rest => if k = k' then some v else lookupCS k rest
 
 def lookup (k : String) : List (String × Nat) → Option Nat
   | [] => none
